@@ -252,6 +252,7 @@ func runProp(prop string, f ruleFunc, repo, tier string) (res *Result) {
 		return
 	}
 	res.Configs = append(res.Configs, P.Config)
+	globalEffects = newEffects(P)
 	f(P, res, tier)
 	return
 }
